@@ -1,5 +1,9 @@
 mod asm;
+mod authgate;
+mod http;
 mod inst;
+mod locks;
+mod methods;
 mod names;
 mod player;
 mod vk;
@@ -108,6 +112,16 @@ fn main() {
         "vk-edges" => vk::run(&args[2], args[3].parse().unwrap(), &args[4]),
         "smoke" => smoke(),
         "play" => play(&args[2..]),
+        "auth" => authgate::run(&args[2], &args[3]),
+        "methods" => {
+            let dir = tempfile::TempDir::new().unwrap();
+            brc20_prog::verif::set_config(inst::config("regtest", true, dir.path()));
+            let mut i = inst::Instance::open(inst::runtime(), dir.path()).unwrap();
+            println!("{}", serde_json::to_string(&i.method_names()).unwrap());
+            i.close();
+            0
+        }
+        "locks" => locks::record(&args[2], args.get(3).map(|s| s.as_str())),
         other => {
             eprintln!("unknown command {}", other);
             2
